@@ -148,6 +148,8 @@ def sizesFor (o : Impl.Opts) (doc : Bytes) (ops : List Impl.Op) : List Nat :=
 def specApply (o : Impl.Opts) (doc patch : Bytes) : Spec.Outcome :=
   match parseValueOf doc, specPatch patch with
   | some d, some sops =>
+    -- repeated member names: RFC 8259 leaves their meaning open; outside every property's domain
+    if !(d.noDup && sops.all fun op => (op.value.map Value.noDup).getD true) then .unspec else
     let sizes : List Nat := match Impl.decodePatch patch with
       | .ok ops => sizesFor o doc ops
       | _ => []
